@@ -7,13 +7,16 @@ From HV Require Export lib.Harness model.Render spec.RenderS.
    (None = render raised), and whether the HUGR was left unchanged by rendering *)
 Inductive case := CRender (h : hview) (rs : list (config * option dot)) (unchanged : bool).
 
-(* the drawing equals the model's up to the order of the edge statements and of the sibling statements inside a
-   cluster (the property promises one statement per node/link and the nesting, not these orders) *)
+(* the drawing has the promised content of the model's: equal up to the order of the edge statements and of the sibling
+   statements inside a cluster, colours, the metadata text, the labels of non-value edges and which of its two display names (with or
+   without extension prefix) a statement shows - the monitor demands one of the two - (the property promises
+   one statement per node/link with name, cells, endpoints, value-edge type labels, and the nesting - none of these) *)
 Definition corr (c : case) : bool :=
   match c with
   | CRender h rs _ =>
       forallb (fun cd => match snd cd with
-                         | Some d => dot_peqb d (render (fst cd) (hv_tree h) (hv_links h))
+                         | Some d => dot_peqb (erase true (promised (hv_links h) d))
+                                             (erase true (promised (hv_links h) (render (fst cd) (hv_tree h) (hv_links h))))
                          | None => false
                          end) rs
   end.
@@ -25,12 +28,14 @@ Definition mon (c : case) : bool :=
   match c with
   | CRender h rs unchanged =>
       unchanged &&
-      forallb (fun cd => match snd cd with Some d => spec_b (fst cd) h d | None => false end) rs &&
+      forallb (fun cd => match snd cd with Some d => spec_p_b (fst cd) h d | None => false end) rs &&
       match all_some rs with
       | [] => true
       | (c0, d0) :: r =>
-          forallb (fun cd => dot_eqb (erase true d0) (erase true (snd cd)) &&
+          (* independent of the options except for colours and (when qualification differs) operation names;
+             statement order is not part of what the property lists, so it is not compared here either *)
+          forallb (fun cd => dot_peqb (erase true d0) (erase true (snd cd)) &&
                              (negb (Bool.eqb (c_qualify c0) (c_qualify (fst cd))) ||
-                              dot_eqb (erase false d0) (erase false (snd cd)))) r
+                              dot_peqb (erase false d0) (erase false (snd cd)))) r
       end
   end.
